@@ -8,6 +8,7 @@ import string
 
 from core import history_probe, call_timed, Result, call, parallel_map
 from gen import g1
+from corr import cli_annotator
 
 OPEN = "([{<" + string.ascii_uppercase
 CLOSE = ")]}>" + string.ascii_lowercase
@@ -360,11 +361,15 @@ def run(ctx):
     # glue around the core: faithful writer, BPSEQ / dot-bracket / multi-strand text (harness/corr/c01_extra.py)
     from corr.c01_extra import run_extra
     run_extra(ctx, res)
+    # the command-line tool as an observation point (harness/corr/cli_annotator.py)
+    cli_annotator.judge(res, "C01", cli_annotator.evaluate(ctx))
     return res
 
 
 def replay(ctx, data):
     """re-run one stored input through implementation, model and spec predicate"""
+    if cli_annotator.is_cli(data.get("input")):
+        return cli_annotator.replay_cli("C01", data["input"])
     inp = data["input"]
     from corr.c01_extra import replay_extra
     if replay_extra(ctx, inp):
